@@ -58,6 +58,18 @@ worlds per process.
       all ranks returned -> all members entered the same sequence of collectives).  Refusals that
       only one rank detects hang on the pinned tree (finding F23): one deterministic probe per
       class in every run.
+ (iv) ranks as separate OS PROCESSES living across SEVERAL library calls (harness/props/c06_procworld.py).  The world of (i)-(iii)
+      runs the ranks as threads of one interpreter, so every module-level object of the library is shared by all ranks and state
+      that goes stale on some ranks only cannot show.  Here a zygote interpreter forks one process per rank; each child installs
+      a stand-in mpi4py (messages over multiprocessing queues) and then imports the tree under test, as under mpiexec.  Every rank
+      runs the same MULTI-CALL history on a few cache paths - create, measure, re-create another catalog at the same path
+      (overwrite=True) from other data (also with the same number of records), measure again, build trees with another binning,
+      re-open, write / read result files at a re-used path - drawn from a small grammar, 2-5 ranks, eager / synchronous / mixed
+      sends, seeded wildcard policies, one or two nodes.  Oracles: the root's result of every call = the single-process run of
+      the same history; every rank returns (a rank that does not come back = hang, reported with the call); in `probe` steps EVERY
+      rank reads the trees through the library's reader and must get the trees of the data that is in the cache now (records and
+      weight sums per patch and bin computed by the harness from the generating columns).  The (re)build / read history is
+      replayed in Coq (`c06_memo_case`, Model/RankMemo.v; theorems C06_world_*).
 """
 import json
 import os
@@ -71,6 +83,7 @@ from concurrent.futures import ThreadPoolExecutor
 from lib import floatq as fq
 from lib import impl  # noqa: F401  (imports yaw from the tree under test, without MPI)
 from props import c06_common as cc
+from props import c06_procworld as procw
 
 ALLOWED_AXIOMS = []
 TRUSTED = [
@@ -100,6 +113,15 @@ TRUSTED = [
     "processing ranks of a creation run and the records per patch dictionary are read from the simulator log "
     "(harness/props/c06.py:write_observation: tag-1 messages on COMM_WORLD up to the reader's end-of-queue sentinel, payload "
     "summary 'dict:{patch:records}')",
+    "process worlds (iv): harness/props/c06_procworld.py - the stand-in mpi4py of the rank processes (class ProcComm: one multiprocessing "
+    "queue per rank, per-sender FIFO matching on (communicator, tag), ANY_SOURCE chosen by a seeded policy among the senders whose "
+    "oldest matching message has arrived, synchronous sends acknowledged at the matching receive, collectives = point-to-point messages "
+    "with reserved tags, Split by allgather); its self-check (3 processes) runs every time.  Which rank receives which message first is "
+    "decided by the operating system's scheduling and is NOT replayable exactly; a replay re-runs the same history with the same "
+    "world parameters",
+    "process worlds: the oracle of the per-rank tree reads (c06_procworld.oracle_trees: patch of a record = the centre it was generated "
+    "around, bin membership by the harness' own comparisons on the generated redshifts k/128 and the bin edges given as input, sums of "
+    "weights k/8 exact) and the naming of what a rank read as a version of its cache path (c06_procworld.memo_history)",
 ]
 ASSUMPTIONS = [
     "ranks are threads of one interpreter and share one file system, also when they report different processor names",
@@ -107,6 +129,8 @@ ASSUMPTIONS = [
     "data weights/redshifts are small dyadic numbers, so float sums are exact and order independent",
     "a refused request is one that the single-process run of the same tree ends by raising; its exception type is the reference "
     "for the root rank, the other ranks only have to return",
+    "process worlds (iv): the ranks are separate OS processes on ONE machine sharing one file system (fork of an interpreter that has "
+    "imported the third-party packages but neither yaw nor an mpi4py); a world that has not ended after 150 s is a hang",
 ]
 RULE = ("dispatch cases = (world size, max_workers, rank0_node_only/hosts, send mode, wildcard policy+seed or explicit "
         "choice sequence, task list, consumer kind, item limit of the consumer); pipeline cases = (world size, max_workers, send mode, "
@@ -116,7 +140,9 @@ RULE = ("dispatch cases = (world size, max_workers, rank0_node_only/hosts, send 
         "non-trivial when that set is not empty; iter_unordered episodes of group C refusal runs = (refusal case, call number), "
         "non-trivial when the job raised in it; refusal cases = (refusal class, its parameters, follow-up "
         "operation, world size, max_workers, send mode, policy, seed, data spec); non-trivial when the single-process "
-        "run raises and at least two ranks took part")
+        "run raises and at least two ranks took part; process-world cases = (history of library calls with their data and binnings, world "
+        "size, max_workers, send mode, wildcard policy, seed, jitter, processor names), non-trivial when >= 2 ranks and some call comes "
+        "after an earlier call / overwrite / tree rebuild on a cache path it uses")
 
 HEADER = "From Verif Require Import Prelude Dispatch.\nOpen Scope nat_scope.\n"
 HERE = os.path.dirname(os.path.abspath(__file__))
@@ -1479,6 +1505,8 @@ def run(ctx):
     t0 = time.time()
     workers = 8
     st = new_state()
+    # (iv) process-backed worlds run in background threads (their own interpreter processes) while this thread computes the references
+    pwh = procw.start(ctx)
     # plan
     dworlds = []
     nbatch = ctx.n(1, 4)
@@ -1558,6 +1586,8 @@ def run(ctx):
     ctx.log("consumer-stop shards done (%.1fs)" % (time.time() - t0))
     finish_layouts(ctx, st)
     ctx.log("layout shards done (%.1fs)" % (time.time() - t0))
+    procw.finish(ctx, pwh)
+    ctx.log("process worlds judged (%.1fs)" % (time.time() - t0))
     ctx.extra["node_layouts"] = dict(
         creation_runs_replayed=len(st["lterms"]), pipeline_worlds_on_several_nodes=sum(1 for w in pworlds if layout_label(w.get("hosts")) != "one-node"),
         layouts=sorted({layout_label(w.get("hosts")) for w in pworlds}),
@@ -1589,13 +1619,18 @@ def run(ctx):
                                        "refusal runs: all ranks returned -> the logged collective calls of every communicator "
                                        "are aligned (C06_collectives_terminate_iff_aligned, flag0 of c06_refusal_case)",
                                        "creation runs: nproc hosts mw = Some (number of observed processing ranks) and every chunk cut as "
-                                       "scatter does (C06_layout_no_loss; flag0 of c06_layout_case)"]
+                                       "scatter does (C06_layout_no_loss; flag0 of c06_layout_case)",
+                                       "process worlds: every read of a rank is a read of the model world (rank < world size, one observation "
+                                       "per read; flag0 of c06_memo_case) and returns the current version (flag1; C06_world_memo_case_sound)"]
 
 
 def replay(ctx, data):
     """re-run the world of a replay file"""
     r = data.get("replay", data)
     size = r["world_size"]
+    if r.get("entry") == "procworld":
+        procw.replay(ctx, r)
+        return
     if r.get("entry") == "parallel.iter_unordered":
         job = dict(size=size, jobs=[dict(kind="dispatch", id=0, tasks=r["tasks"], max_workers=r["max_workers"],
                                          node_only=r.get("rank0_node_only"), sched=r["schedule"], consumer=r.get("consumer"),
